@@ -217,6 +217,25 @@ func cmdCheck(args []string) int {
 			baseCover[n] = true
 		}
 	}
+	// second chance: an obligation that was discharged when the baseline was recorded and now runs
+	// out of solver budget (a loaded machine, an unlucky solver seed) is decided again, alone and with
+	// three times the budget, before anything is concluded from it. A refuted obligation (sat) is final.
+	if *tier != "thorough" {
+		var again []job
+		for _, j := range jobs {
+			if inBase[j.o.Name] && j.o.Expect == "" && (j.o.Result == "unknown" || j.o.Result == "timeout") {
+				j.o.Result = ""
+				again = append(again, j)
+			}
+		}
+		if len(again) > 0 && len(again) <= 40 {
+			SolveAll(again, dir, 3*timeout, 8)
+		} else {
+			for _, j := range again {
+				j.o.Result = "unknown"
+			}
+		}
+	}
 
 	replayDir := filepath.Join(*verif, "replays")
 	os.MkdirAll(replayDir, 0o755)
